@@ -535,6 +535,12 @@ pub fn check(p: &dyn Prop, opts: &CheckOpts) -> i32 {
         if f.index == u64::MAX {
             // supplement violation: replay file just records the input
             let _ = std::fs::create_dir_all(&dir);
+            if let Some((_, mp)) = f.v.msg.split_once("msim_replay=") {
+                // engine C wrote (and re-ran) its own replay file
+                println!("violation detail: {} [{}] {}", f.v.rule, f.v.class, f.v.msg);
+                viol_lines.push(format!("VIOLATION property={} replay={}", p.id(), mp.trim()));
+                continue;
+            }
             path = format!("{}/{}-supplement-{}.json", dir, p.id(), f.v.rule.replace('.', "_"));
             let j = json!({"property": p.id(), "supplement": true, "rule": f.v.rule, "class": f.v.class, "msg": f.v.msg, "seed": opts.seed, "tier": opts.tier.name()});
             std::fs::write(&path, serde_json::to_string_pretty(&j).unwrap()).unwrap();
@@ -584,6 +590,9 @@ pub fn check(p: &dyn Prop, opts: &CheckOpts) -> i32 {
     }
     if a.diverged > 0 {
         println!("HARNESS-ERROR property={} {} runs diverged", p.id(), a.diverged);
+        exit = 2;
+    }
+    if supp_json["engine_c"].as_str() == Some("error") {
         exit = 2;
     }
     let wall = start.elapsed().as_secs_f64();
